@@ -9,6 +9,7 @@ child started / state / picker / init timer) and on the pickers it sent to the p
   P2 a started child has only failed / timed-out children above it
   P3 below a READY child nothing is started
   P4 the state last sent to the parent is the state (connectivity + picker) of the child in use
+  P5 an init timer is armed only for a started child that has not failed since it was last READY/IDLE
 -/
 namespace GrpcModel.Driver.S_priority
 open GrpcModel.Driver GrpcModel.Priority
@@ -87,6 +88,10 @@ def failedOrTimedOut (c : Child) : Bool := c.started && (c.st.conn = 3 || (c.st.
 def childOf (p : PLine) (n : Nat) : Option Child := p.children.find? (·.name = n)
 
 def monitor (p : PLine) (lastUp : Option PState) : Option String :=
+  -- P5: the init timer is armed only before a failure / for started children
+  match p.children.find? (fun c => c.timer.isSome && (c.reportedTF || !c.started)) with
+  | some c => some s!"child {c.name} has its init timer armed although it {if c.started then "reported TRANSIENT_FAILURE since it was last READY/IDLE" else "is not started"}"
+  | none =>
   if p.prios.isEmpty then
     (if p.use.isSome then some "a child is in use although there are no priorities"
      else match lastUp with
